@@ -333,7 +333,7 @@ _centroid_contract()
 # util.rescale on the real code (C17): where it samples and what it returns.  scipy's map_coordinates is
 # abstract (an uninterpreted interpolant per call that reproduces its input at integer positions).
 
-def _rescale_body_contract(tag, order, mode):
+def _rescale_body_contract(tag, order, mode, with_mask=False):
     c = contract('lentil.util.rescale#%s' % tag, level='I')
     c.qualname = 'lentil.util.rescale'
     c.tag = tag
@@ -342,9 +342,10 @@ def _rescale_body_contract(tag, order, mode):
         img = array(ctx, 'img', shape2(ctx, 'img'), 'float')
         s = ctx.fresh_real('scale')
         ctx.assume(s > 0)
-        return {'img': img, 'scale': s, 'shape': None, 'mask': None, 'order': order, 'mode': mode, 'unitary': False}
+        mask = array(ctx, 'mask', img.shape, 'float') if with_mask else None      # the caller's own mask array
+        return {'img': img, 'scale': s, 'shape': None, 'mask': mask, 'order': order, 'mode': mode, 'unitary': False}
     c.params = params
-    c.modifies = set()
+    c.modifies = set()          # neither the image nor a caller-supplied mask is written
 
     @c.post('samples_the_centred_grid')
     def _(ctx, env0, env, out):
@@ -359,7 +360,8 @@ def _rescale_body_contract(tag, order, mode):
         if getattr(ctx, 'replaying', False):
             # the other clauses are about the recorded interpolation calls; on a native outcome only the
             # identity at scale 1 can be judged
-            prove.with_hyp(ctx, inr + [S.z(S.eq(s, 1))], lambda: ctx.oblige(name % 'identity_at_scale_1', S.eq(res.at((i, j)), img.at((i, j)))))
+            if not with_mask:
+                prove.with_hyp(ctx, inr + [S.z(S.eq(s, 1))], lambda: ctx.oblige(name % 'identity_at_scale_1', S.eq(res.at((i, j)), img.at((i, j)))))
             return None
         calls = ctx.__dict__.get('ghost_map_coordinates', [])
         ok = len(calls) == 2 and calls[0]['order'] == 1 and calls[0]['mode'] == 'nearest' and calls[1]['order'] == order and calls[1]['mode'] == mode
@@ -378,8 +380,12 @@ def _rescale_body_contract(tag, order, mode):
                 S.and_(S.eq(cl['yy'].at((i, j)), want_y), S.eq(cl['xx'].at((i, j)), want_x))))
         p, q = ints(ctx, 'p', 'q')
         inp = [p >= 0, p < S.z(n), q >= 0, q < S.z(m)]
-        prove.with_hyp(ctx, inp, lambda: ctx.oblige(name % 'interpolated_mask_is_the_support_of_the_image',
-                                                    S.eq(calls[0]['input'].at((p, q)), S.ite(S.ne(img.at((p, q)), 0), 1, 0))))
+        if with_mask:
+            prove.with_hyp(ctx, inp, lambda: ctx.oblige(name % 'interpolated_mask_is_the_callers_mask',
+                                                        S.eq(calls[0]['input'].at((p, q)), env0['mask'].at((p, q)))))
+        else:
+            prove.with_hyp(ctx, inp, lambda: ctx.oblige(name % 'interpolated_mask_is_the_support_of_the_image',
+                                                        S.eq(calls[0]['input'].at((p, q)), S.ite(S.ne(img.at((p, q)), 0), 1, 0))))
         prove.with_hyp(ctx, inp, lambda: ctx.oblige(name % 'interpolated_image_is_the_input', S.eq(calls[1]['input'].at((p, q)), img.at((p, q)))))
         # result = interpolated image x interpolated support (values below machine epsilon cut to 0)
         mi = calls[0]['output'].at((i, j))
@@ -387,11 +393,13 @@ def _rescale_body_contract(tag, order, mode):
         want = S.mul(calls[1]['output'].at((i, j)), S.ite(S.lt(mi, eps), 0, mi))
         prove.with_hyp(ctx, inr, lambda: ctx.oblige(name % 'interpolated_image_times_interpolated_support', S.eq(res.at((i, j)), want)))
         # identity at scale 1 (given that the interpolant reproduces its knots)
-        prove.with_hyp(ctx, inr + [S.z(S.eq(s, 1))], lambda: ctx.oblige(name % 'identity_at_scale_1', S.eq(res.at((i, j)), img.at((i, j)))))
+        if not with_mask:
+            prove.with_hyp(ctx, inr + [S.z(S.eq(s, 1))], lambda: ctx.oblige(name % 'identity_at_scale_1', S.eq(res.at((i, j)), img.at((i, j)))))
         return None
     return c
 
 
 _rescale_body_contract('cubic-nearest', 3, 'nearest')
 _rescale_body_contract('order0-constant', 0, 'constant')
-RESCALE_BODY = ['lentil.util.rescale#cubic-nearest', 'lentil.util.rescale#order0-constant']
+_rescale_body_contract('cubic-nearest-callers-mask', 3, 'nearest', with_mask=True)
+RESCALE_BODY = ['lentil.util.rescale#cubic-nearest', 'lentil.util.rescale#order0-constant', 'lentil.util.rescale#cubic-nearest-callers-mask']
